@@ -925,6 +925,8 @@ def call_builtin_type(ip, cls, args, kwargs):
         if isinstance(x, (SInt,)):
             n = ctx.concretize(x.t, limit=600, what='bytes(n) length')
             return bytes(n)
+        if isinstance(x, Rec) and hasattr(x.cls, '__bytes__'):
+            return ip.call(ip.getattr(x, '__bytes__'), [])
         if isinstance(x, Sym):
             raise Unsupported('bytes(%r)' % x)
         return ip.native(bytes, args, kwargs)
